@@ -782,7 +782,7 @@ def gen_fx_recursive(rng, linear=False, max_q=None, dead=False, scalar_start=Fal
     construction (each nonterminal gets a constant rule that makes cert a fixed point)."""
     from fractions import Fraction
     import itertools
-    for _ in range(400):
+    for _ in range(3000):
         nls = {'T': 2 if patterned == 'tri' else rng.choice([1, 2, 2])}
         nnt = 2 if mutual else rng.choice([1, 2, 2])
         ntn = ['S', 'X'][:nnt]
@@ -834,11 +834,14 @@ def gen_fx_recursive(rng, linear=False, max_q=None, dead=False, scalar_start=Fal
         if mutual:
             # S and X depend on each other AND X (or S) on itself: a component of two nonterminals whose block system
             # has a diagonal (pivot) block -- what an elimination-based solver has to close before it goes on
+            els['mu'] = {'t': True, 'type': []}
+            wfx['mu'] = [rng.choice([64, 128])]          # a small scalar keeps the contraction bound reachable
+
             def call(lhs, callee):
                 typ = els[lhs]['type']
                 nodes = list(typ) + ['T'] * len(els[callee]['type'])
                 att = list(range(len(typ) + 1, len(nodes) + 1))
-                return {'lhs': lhs, 'nodes': nodes, 'edges': [{'lab': callee, 'att': att}, {'lab': 'b', 'att': []}], 'ext': list(range(1, len(typ) + 1))}
+                return {'lhs': lhs, 'nodes': nodes, 'edges': [{'lab': callee, 'att': att}, {'lab': 'mu', 'att': []}], 'ext': list(range(1, len(typ) + 1))}
             rules += [call('S', 'X'), call('X', 'S'), call(rng.choice(['X', 'X', 'S']), None) if False else call('X', 'X')]
             if rng.random() < 0.5:
                 rules.append(call('S', 'S'))
